@@ -89,7 +89,15 @@ def run(ctx):
         ctx.nontrivial.add(text)
         if rec["ok"]:
             ctx.sample({"text": text, "expected": exp_seq}, 3)
-    for ns in (None, 5, 3.5, b"KE", ["K", "E"], ("K", "E"), {"K": 1}, object(), True, 0, [], b""):
+    import decimal
+    import numpy as np
+
+    class Wordy:
+        def __str__(self):
+            return "ACDKE"
+    for ns in (None, 5, 3.5, b"KE", ["K", "E"], ("K", "E"), {"K": 1}, object(), True, False, 0, [], b"", float("nan"), float("inf"),
+               Ellipsis, np.bool_(False), np.array("acd"), np.array(["K", "E"]), decimal.Decimal("NaN"), decimal.Decimal("Infinity"),
+               Wordy(), bytearray(b"KE"), np.float64("nan"), {"A", "C"}, 1j):
         out = common.call(lc.SP, ns)
         ctx.evaluations += 1
         if out[0] == "ok":
